@@ -535,10 +535,16 @@ def no_emit_override(c, seen=None):
 
 
 def no_actualsize_override(sc):
-    """the model measures a lazily skipped member with Prefixed._actualsize or sizeof; an instance-level
-    _actualsize (the PrefixedArray macro) directly in a lazy position is outside it"""
-    if '_actualsize' in vars(sc):
-        raise Unsupported('instance-level _actualsize in a lazy position')
+    """the model measures a lazily skipped member with Prefixed._actualsize reached through any names and adapters
+    (Renamed._actualsize / Adapter._actualsize defer to their subcon; model/Parse.v actualsize_with), and with sizeof
+    otherwise; an instance-level _actualsize (the PrefixedArray macro) anywhere along that chain is outside the model"""
+    while True:
+        if '_actualsize' in vars(sc):
+            raise Unsupported('instance-level _actualsize in a lazy position')
+        if type(sc) is core.Renamed or isinstance(sc, core.Adapter):
+            sc = sc.subcon
+        else:
+            break
 
 
 def reify_param_callable(x):
